@@ -17,12 +17,13 @@ RULE = ("A zoo transform (leaf, composite, Inverse/Multiscale wrappers, flat and
         "|out32 - out64| <= 4096 * (kappa_hat + u32 * (1 + |out64|)) where kappa_hat is the largest change of the float64 "
         "result when inputs and parameters are perturbed by random relative 2^-23 (8 draws) - an empirical 'how far can "
         "rounding the data to float32 move the answer'. Non-trivial: the map is non-linear or has >= 2 features and "
-        "kappa_hat < 1e-2. One case in ten is a statistics/determinant case: BatchNorm training-mode steps and ActNorm data-dependent "
+        "kappa_hat < 1e-2. Single direct-parameter splines: K=128, also with one logit at +-6 / +-9 among O(0.5) ones (faint bins), and "
+        "log-dets of C0-only maps are compared wherever the float64 log-det does not jump within 2^-20 of the inputs. One case in ten is a statistics/determinant case: BatchNorm training-mode steps and ActNorm data-dependent "
         "initialisation on batches with |mean|/std up to 950 (|x| <= 10), outputs, log-dets, running statistics and the following "
         "evaluation-mode forward/inverse against the float64 twin at K=16 (plus the inherent u*|x|/std of a single-precision batch mean); "
         "Naive/LU/QR/SVD linear layers with 16-200 features, with and without cache, at K=256. Distinct = distinct case JSON.")
-ASSUMPTIONS = ["'moderate magnitude' is read as |parameter| <= 2, |input| <= 5 (with +-2 the RQ discriminant never degenerates; see DESIGN 3/C19)",
-               "K=4096: stable paths measured <= ~1300 with an 8-draw conditioning probe (which under-estimates the worst case), unstable root formulas >= 1e4"]
+ASSUMPTIONS = ["'moderate magnitude' is read as |parameter| <= 2 (direct-parameter splines also with one logit at +-6), |input| <= 10 (with +-2 the RQ discriminant never degenerates; see DESIGN 3/C19)",
+               "K=4096 (128 for a single direct-parameter spline, measured <= 16): stable paths measured <= ~1300 with an 8-draw conditioning probe (which under-estimates the worst case), unstable root formulas >= 1e4"]
 EXPLANATION = "generated"
 
 
@@ -92,6 +93,10 @@ def _case(draw):
                                      {"t": "cauchycdf"}, {"t": "exp"}]))
         c["spec"], c["dom"], c["ctx"] = leaf, "R", None
         c["big_inputs"] = draw(st.sampled_from([8.0, 12.0, 20.0]))
+    if c["spec"]["t"].startswith(("cdf_", "fn_")) and draw(st.integers(0, 2)) == 0:
+        # direct-parameter splines also with one outstanding logit (+-6 among O(0.5) ones): bins of mass 1e-3..1e-4
+        c["init"]["regime"] = "nonuniform"
+        c["spread"] = draw(st.sampled_from([1.0, 1.5]))       # the outstanding logit at +-6 or +-9
     c["spec"] = _tame(c["spec"])
     if isinstance(c["dom"], list):
         c["dom"] = ["box", c["spec"]["box"][0], c["spec"]["box"][1]]
@@ -307,6 +312,11 @@ def run_case(case):
         torch.manual_seed(case["seed"])
         b = zoo.instantiate(case)
         m = b.module
+        if case.get("spread", 1.0) != 1.0:
+            with torch.no_grad():
+                for p_ in m.parameters():
+                    p_.mul_(case["spread"])
+            res.labels.append("spread:%g" % case["spread"])
         n, ctxk = case["n"], case.get("ctx")
         # special points only for maps that are C1 there: at a kink the float32 and float64 evaluations may legitimately sit on
         # different sides (their log-dets then differ by the jump of the derivative)
@@ -398,14 +408,29 @@ def run_case(case):
             kl = max(kl, float((pl - l64).abs().max()))
         u32 = 2.0 ** -24
         K = 4096.0
+        if case["spec"]["t"].startswith(("cdf_", "fn_")):
+            K = 128.0      # a single spline with its own parameters: the 8-draw probe sees the whole conditioning (measured <= 0.004 * 4096)
         eo = float((o32.double() - o64).abs().max())
         el = float((l32.double() - l64).abs().max())
         to = K * (ko + u32 * (1 + float(o64.abs().max())))
         tl = K * (kl + u32 * (1 + float(l64.abs().max())) * max(1, int(np.prod(case["shape"]))))
         if not b.smooth:
             # C0-only maps (linear spline, LeakyReLU, LogTanh): a float32 value can sit on the other side of a kink than its
-            # float64 counterpart (e.g. tanh saturating to exactly 1.0 = a knot), which moves the log-det by the derivative jump
-            el = 0.0
+            # float64 counterpart (e.g. tanh saturating to exactly 1.0 = a knot), which moves the log-det by the derivative jump:
+            # compare log-dets only where the float64 log-det does not jump within a few float32 ulps of the inputs
+            near_kink = False
+            try:
+                with torch.no_grad():
+                    for sgn in (-1.0, 1.0):
+                        Xs = Xd + sgn * 2.0 ** -20 * (1 + Xd.abs())
+                        ls_ = (twin.inverse(Xs, Cd) if inverse else twin(Xs, Cd))[1]
+                        if not bool(torch.isfinite(ls_).all()) or float((ls_ - l64).abs().max()) > 0.25 * tl:
+                            near_kink = True
+            except Exception:
+                near_kink = True
+            if near_kink:
+                el = 0.0
+                res.labels.append("logdet_skipped_near_kink")
         r = max(res.see_ratio(eo, to), res.see_ratio(el, tl))
         if eo > to or el > tl:
             res.fail("f32_mismatch", site, "%s: float32 differs from float64 by %.3g (outputs, allowed %.3g) / %.3g (log-det, allowed %.3g); "
